@@ -42,6 +42,25 @@ Section Top.
     intros k ρ' st' step HI' Hk Hs.
     eapply step_refines_plain with (cfg := cfg); try eassumption; reflexivity.
   Qed.
+
+  (* STAGE 3: try_join! (sync, try, no threads) *)
+  Theorem refine_try_join inp e sp :
+    let cfg := {| is_async := false; is_try := true; is_spawn := false |} in
+    wf inp -> gen cfg inp = Ok e -> prepare cfg inp = Some sp ->
+    den (user_names inp) msem dotsem callsem awaitsem e empty_env = spec msem dotsem callsem awaitsem sp.
+  Proof.
+    intros cfg Hwf Hg Hp.
+    destruct (gen_inv cfg inp e Hg) as (fcp & j & Hj & Ho & Hpats).
+    pose proof (rel_of_gen cfg inp fcp j sp Hwf Hj Hp) as HR.
+    assert (Hun : user_names inp = flat_map opt_list (map pat_name (j_pats j))).
+    { rewrite Hpats. apply user_names_pats. }
+    eapply gen_output_sync with (cfg := cfg) (j := j); try eassumption; try reflexivity.
+    intros ss se Hgs ρ st HI.
+    eapply steps_try with (cfg := cfg); try eassumption; try reflexivity.
+    intros k ρ' st' step HI' Hk Hs.
+    eapply step_refines_plain with (cfg := cfg); try eassumption; reflexivity.
+  Qed.
 End Top.
 
 Print Assumptions refine_join.
+Print Assumptions refine_try_join.
